@@ -232,6 +232,9 @@ def mk_chain(rng, tname, tsize_hint, qname, qsize_hint, tstrand, qstrand, blocks
         if big:
             size = big
             start = big - ln if rng.random() < 0.5 else rng.randint(0, big - ln)
+            if big > 2 ** 63 + ln and rng.random() < 0.4:
+                # an extent that straddles 2^63 (signed 64-bit arithmetic goes wrong exactly there)
+                start = max(0, 2 ** 63 - rng.randint(0, ln))
         else:
             lead = rng.choice([0, 0, rng.randint(0, 50)])
             tail = rng.choice([0, 0, rng.randint(0, 50)])
@@ -264,6 +267,11 @@ def gen_file(rng, zero_blocks=False, big=False, max_chains=6):
         blocks = gen_blocks(rng, shape)
         if zero_blocks:
             blocks = [((0,) + b[1:]) if rng.random() < 0.3 else b for b in blocks]
+        if bigv and bigv > 2 ** 63 + 2 ** 20 and rng.random() < 0.25:
+            # one block longer than 2^63 bases (no offset inside it fits a signed 64-bit integer)
+            j = rng.randrange(len(blocks))
+            blocks = list(blocks)
+            blocks[j] = (2 ** 63 + rng.randint(0, 2000),) + tuple(blocks[j][1:])
         for _ in range(5):
             c = mk_chain(rng, rng.choice(tnames), rng.randint(1, 3000), rng.choice(qnames), rng.randint(1, 3000),
                          rng.choice("+-"), rng.choice("+-"), blocks, k, big=bigv, sizes=sizes)
